@@ -8,6 +8,7 @@ package rules
 
 import (
 	"fmt"
+	"regexp"
 	"go/ast"
 	"go/constant"
 	"go/token"
@@ -26,6 +27,9 @@ type effectCtx struct {
 	selfType *types.Named // the rule type whose helpers are inlined
 	params   map[types.Object]bool   // parameters/receivers of the summarised function and inlined helpers (kept by name)
 	locals   map[types.Object]string // local variables, renamed $v1,$v2,… in order of first appearance (robust to renames)
+	aliases  map[types.Object]ast.Expr // v := &x.f  (pointer to a field path): uses of v render as the path
+	aliasInf map[types.Object]*types.Info
+	outer    *effectCtx // when inlining a helper: the caller's context (arguments are rendered there)
 }
 
 func (e *effectCtx) addParams(f *types.Func) {
@@ -103,6 +107,22 @@ func (e *effectCtx) stmt(info *types.Info, s ast.Stmt) []string {
 	case *ast.IncDecStmt:
 		return []string{s.Tok.String() + "(" + e.argStr(info, s.X) + ")"}
 	case *ast.AssignStmt:
+		// v := &path.to.field  — an alias, not a value: uses of v are rendered as the path
+		if s.Tok == token.DEFINE && len(s.Lhs) == 1 && len(s.Rhs) == 1 {
+			if u, ok := stripParens(s.Rhs[0]).(*ast.UnaryExpr); ok && u.Op == token.AND {
+				if id, ok := s.Lhs[0].(*ast.Ident); ok && fieldOf(info, u.X) != nil {
+					if o := info.ObjectOf(id); o != nil {
+						if e.aliases == nil {
+							e.aliases = map[types.Object]ast.Expr{}
+							e.aliasInf = map[types.Object]*types.Info{}
+						}
+						e.aliases[o] = u.X
+						e.aliasInf[o] = info
+						return nil
+					}
+				}
+			}
+		}
 		// complete rendering: every assignment appears with its targets and sources
 		var ls, rs []string
 		kind := "let"
@@ -233,6 +253,14 @@ func (e *effectCtx) argStr(info *types.Info, x ast.Expr) string {
 			if o.Pkg() != nil && o.Parent() == o.Pkg().Scope() {
 				return o.Name()
 			}
+			if ax, ok := e.aliases[o]; ok {
+				if e.outer != nil && e.params[o] == false {
+					if _, isParamAlias := e.outerParam(o); isParamAlias {
+						return e.outer.argStr(e.aliasInf[o], ax)
+					}
+				}
+				return e.argStr(e.aliasInf[o], ax)
+			}
 			return e.varName(o)
 		}
 	case *ast.SelectorExpr:
@@ -254,6 +282,9 @@ func (e *effectCtx) argStr(info *types.Info, x ast.Expr) string {
 		}
 	case *ast.CallExpr:
 		if tv, ok := info.Types[v.Fun]; ok && tv.IsType() && len(v.Args) == 1 {
+			if at := info.TypeOf(v.Args[0]); at != nil && types.Identical(at, tv.Type) {
+				return e.argStr(info, v.Args[0]) // conversion to the same type: a no-op
+			}
 			return types.ExprString(v.Fun) + "(" + e.argStr(info, v.Args[0]) + ")"
 		}
 		toks := e.call(info, v)
@@ -311,6 +342,14 @@ func (e *effectCtx) call(info *types.Info, call *ast.CallExpr) []string {
 	rn := recvNamed(cal)
 	sel, _ := call.Fun.(*ast.SelectorExpr)
 	if rn != nil && e.ctxType != nil && rn.Obj() == e.ctxType.Obj() {
+		// an unexported Context method that the reference vocabulary does not know is a helper somebody extracted: inline it
+		if !cal.Exported() && !ctxVocabulary()[cal.Name()] && e.depth < 4 {
+			if d := e.p.FuncDecl(cal); d != nil && d.Body != nil {
+				if toks, ok := e.inlineHelper(cal, d, info, call); ok {
+					return toks
+				}
+			}
+		}
 		return []string{"ctx." + cal.Name() + argS}
 	}
 	// dispatch through the EventRule interface
@@ -341,7 +380,125 @@ func (e *effectCtx) call(info *types.Info, call *ast.CallExpr) []string {
 		}
 	}
 	if core.InModule(cal) {
+		// an unexported package-level function of the validator package that takes the context is an extracted helper
+		if rn == nil && !cal.Exported() && e.ctxType != nil && cal.Pkg() == e.ctxType.Obj().Pkg() && e.depth < 4 {
+			if d := e.p.FuncDecl(cal); d != nil && d.Body != nil {
+				takesCtx := false
+				sig := cal.Type().(*types.Signature)
+				for i := 0; i < sig.Params().Len(); i++ {
+					if nt := namedOf(sig.Params().At(i).Type()); nt != nil && nt.Obj() == e.ctxType.Obj() {
+						takesCtx = true
+					}
+				}
+				if takesCtx {
+					if toks, ok := e.inlineHelper(cal, d, info, call); ok {
+						return toks
+					}
+				}
+			}
+		}
 		return []string{core.ObjName(cal) + argS}
 	}
 	return []string{"ext:" + cal.Pkg().Name() + "." + cal.Name()}
+}
+
+// inlineHelper renders the body of a small helper in place of the call: parameters are replaced by the renderings of
+// the call's arguments (only when each argument is a plain path/constant/parameter, so evaluation order cannot matter),
+// the receiver by the caller's context. ok=false: not inlinable (the call is rendered as is).
+func (e *effectCtx) inlineHelper(cal *types.Func, d *ast.FuncDecl, info *types.Info, call *ast.CallExpr) ([]string, bool) {
+	sig := cal.Type().(*types.Signature)
+	if sig.Variadic() || sig.Params().Len() != len(call.Args) {
+		return nil, false
+	}
+	hinfo := e.p.Pkgs[core.Rel(cal.Pkg())].TypesInfo
+	sub := &effectCtx{a: e.a, p: e.p, depth: e.depth + 1, ctxType: e.ctxType, selfType: e.selfType, params: map[types.Object]bool{}, locals: e.locals,
+		aliases: map[types.Object]ast.Expr{}, aliasInf: map[types.Object]*types.Info{}}
+	for k, v := range e.params {
+		sub.params[k] = v
+	}
+	for k, v := range e.aliases {
+		sub.aliases[k] = v
+		sub.aliasInf[k] = e.aliasInf[k]
+	}
+	if e.locals == nil {
+		e.locals = map[types.Object]string{}
+		sub.locals = e.locals
+	}
+	// receiver: the helper's receiver is the same context object as the caller's
+	if sig.Recv() != nil {
+		if selx, ok := call.Fun.(*ast.SelectorExpr); ok {
+			sub.aliases[sig.Recv()] = selx.X
+			sub.aliasInf[sig.Recv()] = info
+		}
+	}
+	for i := 0; i < sig.Params().Len(); i++ {
+		sub.aliases[sig.Params().At(i)] = call.Args[i]
+		sub.aliasInf[sig.Params().At(i)] = info
+	}
+	// argument renderings must come from the CALLER's naming context
+	sub.outer = e
+	toks := sub.stmts(hinfo, d.Body.List)
+	// a helper that returns a value cannot be spliced in as statements
+	if sig.Results().Len() > 0 {
+		return nil, false
+	}
+	// drop a trailing bare return of the helper
+	if len(toks) > 0 && toks[len(toks)-1] == "return" {
+		toks = toks[:len(toks)-1]
+	}
+	for _, t := range toks {
+		if strings.Contains(t, "return") {
+			return nil, false // early returns inside the helper do not translate to the caller
+		}
+	}
+	return toks, true
+}
+
+var ctxVocab map[string]bool
+
+// ctxVocabulary: Context method names the reference specifications speak about (spec keys and every ctx.X( mentioned in a spec).
+func ctxVocabulary() map[string]bool {
+	if ctxVocab != nil {
+		return ctxVocab
+	}
+	v := map[string]bool{}
+	scan := func(str string) {
+		for _, m := range regexp.MustCompile(`ctx\.([A-Za-z_][A-Za-z0-9_]*)\(`).FindAllStringSubmatch(str, -1) {
+			v[m[1]] = true
+		}
+	}
+	for k, alts := range contextSpec {
+		v[k] = true
+		for _, a := range alts {
+			scan(a)
+		}
+	}
+	for _, cells := range c10Spec() {
+		for _, alts := range cells {
+			for _, a := range alts {
+				scan(a)
+			}
+		}
+	}
+	for _, n := range extraCtxVocabulary {
+		v[n] = true
+	}
+	ctxVocab = v
+	return v
+}
+
+// Context methods named by rules outside the spec tables (kept as primitives).
+var extraCtxVocabulary = []string{"areRecordTypesAllowed", "stackRule", "hasExpectedObjectCount", "NotifyKey", "MarkObject", "EndDocument", "Reset", "Init"}
+
+func (e *effectCtx) outerParam(o types.Object) (ast.Expr, bool) {
+	v, ok := o.(*types.Var)
+	if !ok {
+		return nil, false
+	}
+	// parameters and receivers of the inlined helper are aliases created by inlineHelper
+	if v.IsField() {
+		return nil, false
+	}
+	ax, ok := e.aliases[o]
+	return ax, ok && e.outer != nil && e.outer.aliases[o] == nil
 }
